@@ -197,7 +197,7 @@ def kernel(c, kind, a, tr, rnd):
     W = World(c, tr)
     p = W.p
     if kind == 1:
-        return [0]
+        return [rnd.choice([0, 0, 1000000, 3000000])]       # the clock moves: time budgets of limited operations are consumed
     if kind == 2:
         timeout = a[0]
         fds = [(a[i], a[i + 1]) for i in range(3, len(a) - 1, 2)]
@@ -223,7 +223,10 @@ def kernel(c, kind, a, tr, rnd):
             if timeout >= 0:
                 return [0, 0, timeout * 1000000] + rev
             return None
-        return [n, 0, 0] + rev
+        dt = 0 if timeout == 0 else rnd.choice([0, 0, 2000000])
+        if timeout > 0:
+            dt = min(dt, timeout * 1000000)
+        return [n, 0, dt] + rev
     if kind == 3:
         ln = a[1]
         if ln > 1 and rnd.randrange(100) < p["short"]:
@@ -274,8 +277,9 @@ def gen_ops(rnd, role, level):
         ops += [(14, []), (28, [1])]
     else:
         ops += [(1, [1]), (2, []), (1, [2]), (2, []), (40, []), (10, [8, 0, 0]), (30, [1, rnd.choice([1, 2]), rnd.choice([8, 64, 1000])]), (60, [1, 1, 2])]
+        p_send = rnd.choice([0.0, 0.25, 0.25])
         for _ in range(rnd.choice([4, 8, 12, 20])):
-            if rnd.random() < 0.25:
+            if rnd.random() < p_send:
                 ops.append((1061, [1, 8, rnd.choice([1, 5, 40, 1000])]))
             else:
                 ops.append((1041, [rnd.choice([0, 0, 3, 3, -1])]))
@@ -300,6 +304,10 @@ def generate(rnd, tier):
         p = {"role": role, "level": level, "peer": "tls" if rnd.random() < 0.85 else "plain", "app": rnd.choice([0, 5, 30, 200, 3000]),
              "rec": rnd.choice([7, 100, 16384]), "seg": rnd.choice([1, 7, 64, 5000]), "nw": rnd.choice([0, 0, 30, 60]), "short": rnd.choice([0, 0, 30]),
              "close": rnd.choice([0, 0, 1]), "fatal": rnd.choice([0, 0, 0, 0, 1, 2, 3, 5]), "ferr": rnd.choice([E_SSL, E_SYSCALL, E_ZERO])}
+        if tier == "search" and i % 2 == 0:
+            # aimed at the driver-mode handshake: a listening-only endpoint under back pressure
+            p.update({"level": "async", "peer": "tls", "fatal": 0, "nw": rnd.choice([30, 60, 60]), "app": rnd.choice([0, 5])})
+            level = "async"
         c = Case(make_id(p, i), gen_ops(rnd, role, level), [], [], {"kind": "tls", "flavour": level})
         c.meta["pipe_fd"] = 1001
         cases.append(c)
@@ -410,6 +418,8 @@ def monitor(c, tr):
             return IDLE_KEY + " an asynchronous TLS client that has nothing queued for sending never starts the handshake: the driver polls for POLLIN only, the ClientHello is never written"
         return ("the handshake can never complete: it owes the peer a flight, but the driver polled %d times without asking for writability "
                 "(the socket's write interest was lost)" % st[0])
+    # C07 on TLS sockets: the time spent waiting inside one limited Send/Receive never exceeds its time-out
+    waited = 0
     init = False
     fatal_seen = False
     steps_after_ready = 0
@@ -429,8 +439,15 @@ def monitor(c, tr):
             if p["peer"] == "plain":
                 return "a non-TLS peer's bytes were delivered to the receive handler"
             delivered += a[3]
+        elif k == 2:
+            waited += a[2]
         elif k == 20 and seg_i < len(rets) and i == rets[seg_i]:
             opc = a[0]
+            top = tops[seg_i][1] if seg_i < len(tops) else []
+            T = {23: top[2] if len(top) > 2 else 0, 24: top[2] if len(top) > 2 else 0, 32: top[1] if len(top) > 1 else 0}.get(opc, 0)
+            if opc in (23, 24, 32) and T > 0 and waited > T * 1000000:
+                return "operation %d with time-out %d ms spent %d ns waiting in poll (its time budget was restarted between TLS records)" % (opc, T, waited)
+            waited = 0
             if opc in (24, 32) and a[1] == 1 and a[2] >= 0:
                 n = a[2] if opc == 24 else a[3]
                 if n > 0:
